@@ -218,9 +218,10 @@ fn enumerate(out: &mut Out, thorough: bool) {
             out.rec("Quat::dot", k, 'T', 8.0 * E * sabs(&qa, &pa), 0.0, &[q.dot(*p)]);
             let (uq, up) = (q.normalize(), p.normalize());
             // interpolation: SIMD slerp uses its own sine approximation (accuracy 1e-6 class)
-            for (si, s) in [0.0f32, 0.3, 0.5, 1.0].iter().enumerate() {
-                out.rec("Quat::slerp", k * 4 + si, 'T', 2e-5, 0.0, &uq.slerp(up, *s).to_array());
-                out.rec("Quat::lerp", k * 4 + si, 'T', 16.0 * E, 0.0, &uq.lerp(up, *s).to_array());
+            // s inside [0, 1] and extrapolating (|s*theta| beyond 3*pi/2 exercises the SIMD range reduction)
+            for (si, s) in [0.0f32, 0.3, 0.5, 1.0, -2.5, 3.5, 5.0, 9.25].iter().enumerate() {
+                out.rec("Quat::slerp", k * 8 + si, 'T', 2e-5 * (1.0 + s.abs() as f64), 0.0, &uq.slerp(up, *s).to_array());
+                out.rec("Quat::lerp", k * 8 + si, 'T', 16.0 * E * (1.0 + s.abs() as f64), 0.0, &uq.lerp(up, *s).to_array());
             }
             out.rec("Quat::angle_between", k, 'T', 4e-3, 0.0, &[uq.angle_between(up)]);
         }
